@@ -77,6 +77,8 @@ class WellFormed(Suite):
         for _ in range(25 if tier == "quick" else 300):
             cases.append({"s": rng.choice([gen.UNIFYING, gen.PSEUDO, gen.INDUCED, gen.GENERIC]), "D": digit_component_dataset(rng),
                           "one": rng.random() < 0.5})
+        for _ in range(20 if tier == "quick" else 250):      # a member of a hard component never ranked with the others (ParCons sub-problems)
+            cases.append({"s": rng.choice([gen.UNIFYING, gen.UNIFYING, gen.UNIFYING_HALF]), "D": isolated_member_dataset(rng), "one": rng.random() < 0.5})
         for _ in range(160 if tier == "quick" else 2500):
             cases.append({"s": rng.choice([gen.UNIFYING, gen.UNIFYING, gen.INDUCED, gen.PSEUDO, gen.EXTENDED, gen.GENERIC]),
                           "D": named_dataset(rng), "one": rng.random() < 0.5})
